@@ -379,6 +379,23 @@ fn exec(st: &mut St, t: &[&str]) -> String {
             std::fs::write(dir.join(std::ffi::OsStr::from_bytes(&name)), b"x").unwrap();
             "ok".into()
         }
+        "rawlink" => {
+            // a symbolic link whose target does not exist
+            use std::os::unix::ffi::OsStrExt;
+            let dir = st.phys.get(t[1]).expect("SCRIPT: rawlink needs a phys root").clone();
+            let name = unhex(t[2]);
+            std::os::unix::fs::symlink("/nonexistent-target-of-a-dangling-link", dir.join(std::ffi::OsStr::from_bytes(&name))).unwrap();
+            "ok".into()
+        }
+        "rawsock" => {
+            // a unix socket bound behind the library's back: a directory entry that is neither a file nor a directory
+            use std::os::unix::ffi::OsStrExt;
+            let dir = st.phys.get(t[1]).expect("SCRIPT: rawsock needs a phys root").clone();
+            let name = unhex(t[2]);
+            let l = std::os::unix::net::UnixListener::bind(dir.join(std::ffi::OsStr::from_bytes(&name))).unwrap();
+            drop(l);          // the socket file stays
+            "ok".into()
+        }
         "embedfile" | "embedfile2" => {
             let rel = String::from_utf8(unhex(t[1])).unwrap();
             let full = std::path::Path::new(if t[0] == "embedfile" { EMBED_DIR } else { EMBED_DIR2 }).join(rel);
